@@ -28,6 +28,22 @@ def builtin_generators(env, emit):
     return [adv.Wrapped(Dispatcher(env.config.dispatcher), emit), adv.Wrapped(ChargingFleetManager(env.config.dispatcher), emit)]
 
 
+def sched_table(env) -> List[List[Any]]:
+    """the shift table as data: [[schedule id, [start, end]]] in seconds of day (the environment only holds closures)"""
+    import csv
+
+    path = env.config.input_config.schedules_file
+    out = []
+    if path:
+        with open(path) as f:
+            for row in csv.DictReader(f):
+                def sec(x):
+                    h, m, s_ = x.strip().strip('"').split(":")
+                    return int(h) * 3600 + int(m) * 60 + int(s_)
+                out.append([row["schedule_id"], [sec(row["start_time"]), sec(row["end_time"])]])
+    return out
+
+
 def crank_traced(rp, steps: int, tr: tracer.Tracer, init_extra: Optional[Dict[str, Any]] = None):
     """advance with the real co-simulation entry point, hooks delivering to `tr`"""
     from nrel.hive.app import hive_cosim
@@ -36,7 +52,9 @@ def crank_traced(rp, steps: int, tr: tracer.Tracer, init_extra: Optional[Dict[st
     if not verif_hooks.ENABLED:
         raise RuntimeError("hooks are disabled: NREL_HIVE_VERIF=1 must be set before nrel.hive is imported")
     if tr.proj is None:
-        tr.init(rp.s, rp.e, init_extra)
+        extra = dict(init_extra or {})
+        extra.setdefault("sched", sched_table(rp.e))
+        tr.init(rp.s, rp.e, extra)
     verif_hooks.install(tr)
     try:
         res = hive_cosim.crank(rp, steps)
